@@ -8,16 +8,21 @@ Driver for C11.  obs := item;item;…  item := `<q|a|k>/<key>/<answer>/<fresh>/<
   text > 1024 bytes, `c` same query earlier on facts that differ only behind byte 1024 of the engine key text, `E` an aggregate
   call that returns Err, `e` asked after an aggregate call failed on this engine, `w` an earlier call's engine key text differs
   from this one's only in whitespace, `z` same query earlier on facts that differ only in entries holding Null, `R` a RETE engine is
-  attached to the call, `T` facts were retracted in the attached engine earlier)
+  attached to the call, `T` facts were retracted in the attached engine earlier, `V` the live engine's knowledge base was edited
+  earlier, `s` … and the index has not been rebuilt since)
   item (since the engine model): a 7th field `<facts after the call>` (c09's rendering; `?` when a fact outside its universe is present)
   drv_c11 model  : case       ↦ the engine model (`RreModel/C11/Engine.lean`: memo cache + `C09.queryFast` + the code's candidate
                                  computation) run over the whole history: the SET of admissible histories of
                                  `<answer>:<hit>:<facts after>` items (`;`-separated, one per Q/A/E op), one per choice of the
                                  enumeration orders of the top-level candidate HashSets, joined by ` || `; `many-orders` when a
                                  candidate set has > 4 rules or > 64 histories are admissible; the prediction STOPS (last item `*`)
-                                 at the first op outside the modelled class (negated goals `N`, Null literals, extra facts `P` `X`)
-                                 and is `-` when configuration / initial facts / rules are outside the C09 grammar (Null,
-                                 exists(..)): there the fresh-engine comparison and the cache model (oracle mode) stay alone
+                                 at the first op outside the modelled class (extra facts `P` `X`)
+                                 and is `-` when the rules are outside the C09 grammar (exists(..)): there the fresh-engine
+                                 comparison and the cache model (oracle mode) stay alone.  Since U09 the model covers negated
+                                 goals `N` (C09.queryNeg), knowledge-base edits `+i=j` `-i` `e<i>` `d<i>` `z` and `rebuild_index`
+                                 `x` (C09.kbStep / C09.engStep; the memo key carries the kb version, `x` empties the cache), and
+                                 drops the mutator suffix `@<m>` of `S` / `D` / `X` ops and the ops `W` / `Wy` (a new Facts object):
+                                 the model's facts are contents
   drv_c11 oracle : case | obs ↦ `ok <tags>` / `fail stale@<k>` (answer ≠ fresh engine's) / `fail cache-model@…`
 -/
 open Proto C11
@@ -76,6 +81,8 @@ def oracleLine (line : String) : String :=
               ++ (if items.any (fun it => it.flags.contains 'e' && it.flags.contains 'N') then ["negated_goal_after_failed_aggregate"] else [])
               ++ (if items.any (·.flags.contains 'w') then ["whitespace_lookalike_key"] else [])
               ++ (if items.any (·.flags.contains 'z') then ["requery_absent_vs_null"] else [])
+              ++ (if items.any (·.flags.contains 'V') then ["asked_after_kb_edit"] else [])
+              ++ (if items.any (·.flags.contains 's') then ["asked_with_stale_index"] else [])
               ++ (if items.any (·.flags.contains 'R') then ["rete_attached"] else [])
               ++ (if items.any (·.flags.contains 'T') then ["asked_after_rete_retraction"] else [])
               ++ (if distinctAns > 1 then ["answer_changes", "nontrivial"] else []))
@@ -237,12 +244,26 @@ decreasing_by
   | nil => simp at h
   | cons _ _ => simp
 
+/-- `*<rule>` = the rule is added disabled (c09.rs) -/
+def parseKRule (s : String) : Option KRule :=
+  if s.startsWith "*" then (parseRule (s.drop 1).toString).map (⟨·, false⟩) else (parseRule s).map (⟨·, true⟩)
+
 /-- one op of the history as steps of the engine model; `none` = outside the modelled class.
 The query travels as text: an Integer literal means the Number the query parser produces (`reparse`). -/
-def parseOp (cfg : C11.Config) (facts : Facts) (op : String) : Option (List (C11.Step Atom) ⊕ Atom × Bool) :=
+def parseOp (written : List KRule) (cfg : C11.Config) (facts : Facts) (op0 : String) :
+    Option (List (C11.Step C11.GQ) ⊕ C11.GQ × Bool) :=
+  -- `<op>@<m>`: WHICH public mutator of `Facts` the caller uses (set / set_nested / add_value / add / merge / restore / clear +
+  -- re-add / a new Facts object): the contents afterwards are the same, and contents are all the model has
+  let op := (op0.splitOn "@").headD op0
   let rest := (op.drop 1).toString
-  if op.startsWith "Q" then (parseAtom rest).map fun a => .inr (reparse a, false)
-  else if op.startsWith "A" then (parseAtom rest).map fun a => .inr (reparse a, true)
+  if op.startsWith "Q" then (parseAtom rest).map fun a => .inr (⟨reparse a, false⟩, false)
+  -- the negated goal `NOT <atom>` (RreModel/C09/Ext.lean inside RreModel/C11/Engine.lean)
+  -- (outside the modelled class: `NOT F <op> null` — for a NEGATED goal `check_goal_in_facts` evaluates the parsed expression,
+  -- where an absent field IS Null (`Null == null`), while `C09.evalAtom` reads an absent field as "only != holds"; the two
+  -- differ exactly for the literal `null`, which C09's negated-query cases do not contain)
+  else if op.startsWith "N" then (parseAtom rest).bind fun a =>
+    if a.val == Val.null then none else some (.inr (⟨reparse a, true⟩, false))
+  else if op.startsWith "A" then (parseAtom rest).map fun a => .inr (⟨reparse a, false⟩, true)
   else if op.startsWith "S" then
     (parseFactList rest).map fun kvs => .inl [.setFacts (kvs.foldl (fun acc e => insertFact e acc) facts)]
   else if op.startsWith "D" then
@@ -255,10 +276,26 @@ def parseOp (cfg : C11.Config) (facts : Facts) (op : String) : Option (List (C11
   -- `R` attach a RETE engine / `T` retract there: nothing of the engine model's state is touched, and the search with the
   -- attachment hands back what it hands back without (the proof graph is built per search; see RreModel/C11/Engine.lean)
   else if op = "R" || op = "T" then some (.inl [])
+  -- `W` / `Wy`: the next query is handed a NEW Facts object with equal contents — the same facts for the model
+  else if op = "W" || op = "Wy" then some (.inl [])
+  -- edits through `engine.knowledge_base()` and `rebuild_index` (`C09.kbStep` / `C09.engStep` inside the engine model)
+  else if op.startsWith "+" then
+    match rest.splitOn "=" with
+    | [i, j] => do
+      let k ← written[(← j.toNat?)]?
+      pure (.inl [.kb (.add (← i.toNat?) ⟨k.rule, true⟩)])
+    | _ => none
+  else if op.startsWith "-" then rest.toNat?.map fun i => .inl [.kb (.remove i)]
+  else if op.startsWith "e" then rest.toNat?.map fun i => .inl [.kb (.enable i true)]
+  else if op.startsWith "d" then rest.toNat?.map fun i => .inl [.kb (.enable i false)]
+  else if op = "z" then some (.inl [.kb .clear])
+  else if op = "x" then some (.inl [.rebuild])
   else none
 
+abbrev Key := Nat × C11.GQ × Nat × Facts
+
 /-- a state of the exploration: engine, caller's facts, items handed back so far (reversed) -/
-abbrev XState := C11.Eng (Atom × Nat × Facts) × Facts × List String
+abbrev XState := C11.Eng Key × Facts × List String
 
 def sameX (a b : XState) : Bool :=
   a.1.cfg == b.1.cfg && a.1.cache == b.1.cache && a.2.1 == b.2.1 && a.2.2 == b.2.2
@@ -272,31 +309,31 @@ def showItem (agg : Bool) (o : C11.Out) : String :=
 def modelLine (line : String) : String :=
   match tokens line with
   | [cfgS, initS, rulesS, opsS] =>
-    match parseCfg cfgS, parseFactList initS, (if rulesS = "-" then some [] else (rulesS.splitOn ";").mapM parseRule) with
-    | some cfg, some init, some kb =>
-      let W := C11.World.code tieNames kb nFields
-      let S := C11.fastSearch W
-      let stepF := C11.engineStep S nFields C11.keyCode
+    match parseCfg cfgS, parseFactList initS, (if rulesS = "-" then some [] else (rulesS.splitOn ";").mapM parseKRule) with
+    | some cfg, some init, some ks =>
+      let nm := tieNames
+      let stepF := C11.engineStep (C11.fastSearch nm) nm nFields C11.keyCode
       let f0 : Facts := init.foldl (fun acc e => insertFact e acc) []
       -- fold over the ops, carrying the set of admissible states (`none` = too many) and whether an op outside the
       -- modelled class was met: the prediction stops there (`*`), the calls before it are predicted
       let go : Option (List XState) × Bool → String → Option (List XState) × Bool := fun acc op =>
         match acc with
         | (_, true) => acc
-        | (none, false) => if (parseOp cfg [] op).isSome then acc else (none, true)
+        | (none, false) => if (parseOp ks cfg [] op).isSome then acc else (none, true)
         | (some states, false) =>
-          -- every state carries its own configuration and facts
+          -- every state carries its own configuration and facts (the rule state is the same in all of them)
           let next := states.mapM fun (x : XState) =>
-            match parseOp x.1.cfg x.2.1 op with
+            match parseOp ks x.1.cfg x.2.1 op with
             | none => none
             | some (.inl steps) =>
               let s' := steps.foldl (fun (s : C11.HState _) st => (stepF s st).1) (x.1, x.2.1)
               let item := if op.startsWith "E" then ["e:0:" ++ showFacts x.2.1] else []
               some (some [((s'.1, s'.2, item ++ x.2.2) : XState)])
             | some (.inr (g, agg)) =>
-              let cands := W.top g
-              if cands.length > 4 then some none
-              else some (some ((perms cands).map fun order =>
+              -- the top-level candidates: out of the index (a HashSet: every order) or the linear fallback (one order)
+              let top := C11.topOf nm x.1.rules g
+              if top.2 && top.1.length > 4 then some none
+              else some (some ((if top.2 then perms top.1 else [top.1]).map fun order =>
                 let r := stepF (x.1, x.2.1) (if agg then .aggregate g (fun _ => order) else .query g (fun _ => order))
                 match r.2 with
                 | some o => ((r.1.1, r.1.2, showItem agg o :: x.2.2) : XState)
@@ -308,7 +345,8 @@ def modelLine (line : String) : String :=
             else
               let all := dedupX (rs.flatMap fun r => r.getD [])
               if all.length > 64 then (none, false) else (some all, false)
-      match (opsS.splitOn ",").foldl go (some [((C11.Eng.new cfg, f0, []) : XState)], false) with
+      let e0 : C11.Eng Key := C11.Eng.new (engNew nm (C11.namedRules ks)) cfg
+      match (opsS.splitOn ",").foldl go (some [((e0, f0, []) : XState)], false) with
       | (none, _) => "many-orders"
       | (some states, stopped) =>
         let outs := (states.map fun x =>
